@@ -155,6 +155,7 @@ impl Prop for C20 {
         let mut gcfg = GenCfg::order_insensitive();
         gcfg.fault_pct = 0;
         gcfg.max_stanzas = 4;
+        gcfg.ast_mutation_pct = 0;
         gcfg.print = false;
         let prog = gen_program(rng, &gcfg);
         let source = if rng.chance(1, 3) { "def f(a, b):\n    x = g(a, b)\n    y = x.z\n    return [x, y, f(1, 2)]\nclass C:\n    k = f(3, 4)\n".to_string() } else { py::gen_any_source(rng, 10, 5) };
